@@ -16,8 +16,8 @@ def search(ctx):
 
 def run(ctx) -> int:
     proof = common.proof_stage(ctx.pid)
-    drv.d1(ctx, WHICH, 20000 if ctx.thorough else 1500, NT, allow_abort=False)
-    drv.d2_random(ctx, WHICH, NT, 3000 if ctx.thorough else 400, aborts=False)
+    drv.d1(ctx, WHICH, 20000 if ctx.thorough else 5000, NT, allow_abort=False)
+    drv.d2_random(ctx, WHICH, NT, 3000 if ctx.thorough else 1000, aborts=False)
     return common.decide(ctx, proof, RULE, search=search)
 
 
